@@ -5,3 +5,4 @@ import Generated.RWLockProtocol
 import Generated.LockDiscipline
 import Generated.RWLockCert_2
 import Generated.RWLockCert_3
+import Generated.AggDiscipline
